@@ -254,6 +254,9 @@ func execRelayRules(k *sim.Kernel, pl RelayRulesPlan) {
 			st := actors.NewRtmpServerStub(k, fmt.Sprintf("pushtarget%d", len(rr.Pushes)), c)
 			st.DieAfterHandshake = mode == "die_hs"
 			p.Stub = st
+			if mode == "slow" {
+				c.Hold(true) // the target's answers are delayed: the connect stays in progress across ticks
+			}
 			return st, 0
 		})
 	}
@@ -278,6 +281,18 @@ func execRelayRules(k *sim.Kernel, pl RelayRulesPlan) {
 		k.Settle()
 		syncModel()
 		now := k.NowMs()
+		// one session per configured target: never two connections to a target at once, connecting ones included
+		for _, addr := range pl.Conf.PushAddrs {
+			open := 0
+			for _, p := range rr.Pushes {
+				if p.Addr == addr && p.Stub != nil && !p.Stub.Closed {
+					open++
+				}
+			}
+			if open > 1 {
+				k.Violate("C17.push-duplicate", "%d connections to push target %s are open at once at %d ms (a connect still in progress counts)", open, addr, now)
+			}
+		}
 		switch op.Kind {
 		case "advance":
 			k.Advance(time.Duration(op.Ms) * time.Millisecond)
@@ -404,6 +419,23 @@ func execRelayRules(k *sim.Kernel, pl RelayRulesPlan) {
 			if !res.Done {
 				k.Violate("C17.api", "start_relay_pull did not answer")
 			}
+			// a start that follows a stop / kick (or is the first one) opens a new pull task with a fresh budget: when the
+			// rules say an attempt is due under either tie order, lal must make one
+			freshTask := true
+			for i := len(rr.apis) - 2; i >= 0; i-- {
+				if rr.apis[i].kind == "start" {
+					freshTask = false
+				}
+				break
+			}
+			for _, o := range rr.Origins[:before] {
+				if o.Stub != nil && !o.Stub.Closed {
+					freshTask = false // an earlier connection is still open (slow origin): "nothing in flight" is not certain
+				}
+			}
+			if !m.static && freshTask && res.Done && started && started2 && res.ErrorCode() != 0 && len(rr.Origins)-before == 0 {
+				k.Violate("C17.api-start-refused", "start_relay_pull (retry=%d autostop=%d) after a stop answered error_code=%d (%s) and made no attempt although the pull is enabled, the stream has no input, nothing is in flight and the new task's budget is unused (model: %s)", op.Retry, op.AutoStop, res.ErrorCode(), clip(string(res.Body), 120), strings.Join(m.log, "; "))
+			}
 			if m.static && (res.ErrorCode() == 0) != started && (res.ErrorCode() == 0) != started2 {
 				k.Violate("C17.api-start-response", "start_relay_pull answered error_code=%d but by the rules an attempt %s start (model: %s)", res.ErrorCode(), map[bool]string{true: "must", false: "must not"}[started], strings.Join(m.log, "; "))
 			}
@@ -468,6 +500,11 @@ func execRelayRules(k *sim.Kernel, pl RelayRulesPlan) {
 		}
 	}
 	k.Settle()
+	for _, p := range rr.Pushes {
+		if p.Mode == "slow" && p.Stub != nil && !p.Stub.Closed {
+			p.Stub.Conn.Hold(false)
+		}
+	}
 	k.Advance(2500 * time.Millisecond)
 	syncModel()
 	// ---- compare connection attempts
@@ -605,7 +642,7 @@ func genC17Plan(r *sim.Rng, tier string) RelayRulesPlan {
 	if pushMode {
 		pl.Conf.PushAddrs = pushTargets[:1+r.Intn(2)]
 		for i := 0; i < 1+r.Intn(4); i++ {
-			pl.PushTarget = append(pl.PushTarget, []string{"accept", "accept", "refuse", "die_hs"}[r.Intn(4)])
+			pl.PushTarget = append(pl.PushTarget, []string{"accept", "accept", "refuse", "die_hs", "slow"}[r.Intn(5)])
 		}
 		pl.PushTarget = append(pl.PushTarget, "accept")
 		switch r.Intn(4) {
